@@ -53,6 +53,12 @@ pub struct NCase {
     /// lock-step with the CPU (C04 programs)
     #[serde(default)]
     pub steps: u32,
+    /// emulator-only prelude (C19): one instruction per character is stepped before the case's
+    /// own step to move the machine's internal bookkeeping (call stack, trace, counters) away
+    /// from the freshly constructed state; registers, flags and arena bytes are then reset to the
+    /// case's. 'r' = ret, 'c' = call, 'j' = jmp, 'J' = jmp to itself (consecutive ones collapse).
+    #[serde(default)]
+    pub pre: String,
 }
 
 impl NCase {
@@ -97,6 +103,10 @@ pub fn arena_images(c: &NCase) -> Vec<(ArenaKind, Vec<u8>)> {
         // the instruction bytes go in last: a data patch that overlaps them must not change which
         // instruction executes (everything that labels the case decodes `code`)
         if d.kind == ArenaKind::Code {
+            for (at, b) in prelude_slots(&c.pre) {
+                let off = (at - d.base) as usize;
+                img[off..off + b.len()].copy_from_slice(&b);
+            }
             let code = c.code_bytes();
             let off = c.rip.wrapping_sub(d.base) as usize;
             if off < d.len {
@@ -139,6 +149,56 @@ pub fn build_ax(c: &NCase, images: &[(ArenaKind, Vec<u8>)]) -> Result<Axecutor, 
     ax.write_fs(c.fs);
     ax.write_gs(c.gs);
     Ok(ax)
+}
+
+/// Prelude instructions (see `NCase::pre`) as (address, bytes), one 16-byte slot each from
+/// CODE_BASE+0x810; consecutive 'J's share a slot so the same jump repeats.
+pub fn prelude_slots(pre: &str) -> Vec<(u64, Vec<u8>)> {
+    let base = crate::native::CODE_BASE + 0x800;
+    let (mut slot, mut prev) = (0u64, ' ');
+    let mut out = vec![];
+    for ch in pre.chars() {
+        if !(ch == 'J' && prev == 'J') {
+            slot += 1;
+        }
+        prev = ch;
+        let bytes: Vec<u8> = match ch {
+            'r' => vec![0xc3],
+            'c' => vec![0xe8, 11, 0, 0, 0],
+            'j' => vec![0xeb, 14],
+            _ => vec![0xeb, 0xfe],
+        };
+        out.push((base + slot * 16, bytes));
+    }
+    out
+}
+
+/// See `NCase::pre`. The prelude's bytes are part of the code image (`arena_images`). Errors of
+/// prelude steps are ignored (the state they leave is still a state a user can step from);
+/// panics propagate to the caller's catch.
+pub fn run_prelude(ax: &mut Axecutor, c: &NCase, images: &[(ArenaKind, Vec<u8>)]) {
+    if c.pre.is_empty() {
+        return;
+    }
+    for (at, _) in prelude_slots(&c.pre) {
+        let _ = ax.reg_write_64(SR::RSP, crate::native::STK_BASE + 0x800);
+        let _ = ax.reg_write_64(SR::RIP, at);
+        let r = crate::util::block_on(ax.step());
+        if std::env::var("AXVERIF_DEBUG").is_ok() {
+            eprintln!("prelude at {:#x}: {:?}", at, r.map_err(|e| e.to_string().chars().take(200).collect::<String>()));
+        }
+    }
+    for (k, img) in images {
+        let d = ARENAS.iter().find(|d| d.kind == *k).unwrap();
+        if *k == ArenaKind::Stack {
+            let _ = ax.mem_write_bytes(d.base, img);
+        }
+    }
+    for i in 0..16 {
+        let _ = ax.reg_write_64(SR64[i], c.gpr[i]);
+    }
+    let _ = ax.reg_write_64(SR::RIP, c.rip);
+    ax.verif_set_rflags(c.rflags & GUEST_FLAG_MASK);
 }
 
 pub fn load_native(n: &Native, images: &[(ArenaKind, Vec<u8>)]) {
